@@ -51,6 +51,9 @@ pub struct Recorder {
     /// unrelated dispatchers built on the side while a recorded builder is half built (they stay alive until the end)
     pub noise: Vec<shred::Dispatcher<'static, 'static>>,
     pub noise_share: f64,
+    /// share of the systems that are registered as zero-sized types, and the table slots this recorder holds
+    pub zst_share: f64,
+    pub zslots: Vec<usize>,
     /// a pool attached to the top-level builder BEFORE anything is registered (otherwise the caller attaches one at the end)
     #[cfg(feature = "parallel")]
     pub early_pool: Option<std::sync::Arc<rayon::ThreadPool>>,
@@ -141,6 +144,8 @@ impl Recorder {
             sensitive: Default::default(),
             noise: Vec::new(),
             noise_share: NOISE.with(|n| n.get()),
+            zst_share: ZST.with(|n| n.get()),
+            zslots: Vec::new(),
             #[cfg(feature = "parallel")]
             early_pool: None,
             toggle_counter: 0,
@@ -212,6 +217,19 @@ impl Recorder {
             decl_w,
             rd,
             wr,
+        }
+    }
+
+    /// A table slot for a zero-sized system (None: register the ordinary, self-contained harness system).
+    fn zslot(&mut self, gid: usize, acc: &HAcc, t: u8) -> Option<usize> {
+        if self.zst_share > 0.0 && self.rng.gen_bool(self.zst_share) {
+            let k = crate::sys::zalloc(crate::sys::ZEntry { gid, acc: acc.clone(), t, ctx: self.ctx.clone() });
+            if let Some(k) = k {
+                self.zslots.push(k);
+            }
+            k
+        } else {
+            None
         }
     }
 
@@ -364,17 +382,22 @@ impl Recorder {
                     let gid = self.next_gid;
                     self.next_gid += 1;
                     let acc = self.make_acc(r, w);
-                    let before = b.verif_layout();
-                    let sys = HTl {
-                        gid,
-                        acc,
-                        t: 3,
-                        ctx: self.ctx.clone(),
-                        tl: true,
-                        mk: PhantomData,
+                    let before = norm(bidx, b.verif_layout());
+                    let zslot = self.zslot(gid, &acc, 3);
+                    let out = if let Some(k) = zslot {
+                        crate::with_zsys!(k, std::rc::Rc<()>, |z| catch_unwind(AssertUnwindSafe(|| b.add_thread_local(z))))
+                    } else {
+                        let sys = HTl {
+                            gid,
+                            acc,
+                            t: 3,
+                            ctx: self.ctx.clone(),
+                            tl: true,
+                            mk: PhantomData,
+                        };
+                        catch_unwind(AssertUnwindSafe(|| b.add_thread_local(sys)))
                     };
-                    let out = catch_unwind(AssertUnwindSafe(|| b.add_thread_local(sys)));
-                    let after = b.verif_layout();
+                    let after = norm(bidx, b.verif_layout());
                     let new = self.snapshot_new_addr(&before, &after);
                     let idx = if new.len() == 1 {
                         after.thread_local.iter().position(|x| x.0 == new[0]).map(|i| i + 1)
@@ -406,10 +429,10 @@ impl Recorder {
                     #[cfg(feature = "parallel")]
                     let ib = ib.with_pool(crate::record::shared_pool());
                     let d = ib.build();
-                    let before = b.verif_layout();
+                    let before = norm(bidx, b.verif_layout());
                     let sys = HNest { gid, inner_b: iidx, d, ctx: self.ctx.clone() };
                     let out = catch_unwind(AssertUnwindSafe(|| b.add_thread_local(sys)));
-                    let after = b.verif_layout();
+                    let after = norm(bidx, b.verif_layout());
                     let new = self.snapshot_new_addr(&before, &after);
                     let idx = if new.len() == 1 {
                         after.thread_local.iter().position(|x| x.0 == new[0]).map(|i| i + 1)
@@ -440,20 +463,28 @@ impl Recorder {
                     let acc = self.make_acc(r, w);
                     let rname = self.variant_name_in(name, bidx);
                     let rdeps: Vec<String> = self.variant_deps(deps, bidx);
-                    let before = b.verif_layout();
-                    let sys = HSys {
-                        gid,
-                        acc,
-                        t: *t,
-                        ctx: self.ctx.clone(),
-                        tl: false,
-                        mk: PhantomData,
+                    let before = norm(bidx, b.verif_layout());
+                    let zslot = self.zslot(gid, &acc, *t);
+                    let out = if let Some(k) = zslot {
+                        crate::with_zsys!(k, (), |z| catch_unwind(AssertUnwindSafe(|| {
+                            let d: Vec<&str> = rdeps.iter().map(|s| s.as_str()).collect();
+                            b.add(z, &rname, &d)
+                        })))
+                    } else {
+                        let sys = HSys {
+                            gid,
+                            acc,
+                            t: *t,
+                            ctx: self.ctx.clone(),
+                            tl: false,
+                            mk: PhantomData,
+                        };
+                        catch_unwind(AssertUnwindSafe(|| {
+                            let d: Vec<&str> = rdeps.iter().map(|s| s.as_str()).collect();
+                            b.add(sys, &rname, &d)
+                        }))
                     };
-                    let out = catch_unwind(AssertUnwindSafe(|| {
-                        let d: Vec<&str> = rdeps.iter().map(|s| s.as_str()).collect();
-                        b.add(sys, &rname, &d)
-                    }));
-                    let after = b.verif_layout();
+                    let after = norm(bidx, b.verif_layout());
                     self.log_add("add", bidx, gid, r, w, &rname, &rdeps, *t, out, &before, &after, json!({}));
                     let last = self.sys.last_mut().unwrap();
                     last.kind = "plain";
@@ -472,7 +503,7 @@ impl Recorder {
                     self.next_gid += 1;
                     let rname = self.variant_name_in(name, bidx);
                     let rdeps: Vec<String> = self.variant_deps(deps, bidx);
-                    let before = b.verif_layout();
+                    let before = norm(bidx, b.verif_layout());
                     let ctx = self.ctx.clone();
                     let out = catch_unwind(AssertUnwindSafe(|| {
                         let d: Vec<&str> = rdeps.iter().map(|s| s.as_str()).collect();
@@ -497,7 +528,7 @@ impl Recorder {
                             _ => go!(K3),
                         }
                     }));
-                    let after = b.verif_layout();
+                    let after = norm(bidx, b.verif_layout());
                     let (cr, cw) = ctl_access(*ctl);
                     // MultiDispatcher does not forward running_time: VeryLong
                     let teff = if *multi { 5 } else { *t };
@@ -605,6 +636,8 @@ impl Recorder {
 
     /// Map a hook layout to gids (0 = unknown address).
     pub fn layout_gids(&self, l: &VerifLayout) -> (Vec<Vec<Vec<usize>>>, Vec<usize>) {
+        // (layouts of the top-level builder / dispatcher: builder index 1)
+        let l = &norm(1, l.clone());
         let f = |a: &(usize, usize)| *self.addr2gid.get(&a.0).unwrap_or(&0);
         (
             l.stages
@@ -688,4 +721,42 @@ pub struct NoiseN;
 impl<'a> shred::System<'a> for NoiseN {
     type SystemData = ();
     fn run(&mut self, _: ()) {}
+}
+
+thread_local! {
+    static ZST: std::cell::Cell<f64> = std::cell::Cell::new(0.0);
+}
+
+/// Share of the systems of the following programs (this thread) that are registered as zero-sized types.
+pub fn set_zst(p: f64) {
+    ZST.with(|n| n.set(p));
+}
+
+impl Drop for Recorder {
+    fn drop(&mut self) {
+        for k in self.zslots.drain(..) {
+            crate::sys::zfree(k);
+        }
+    }
+}
+
+/// All boxes of zero-sized systems have the same (dangling) address.  The plan is append-only, so the PLACE of
+/// such a system identifies it: its address is replaced by a synthetic one derived from builder and place.
+pub fn norm(bidx: usize, mut l: VerifLayout) -> VerifLayout {
+    const SYN: usize = 0x5A00_0000_0000_0000;
+    for (si, st) in l.stages.iter_mut().enumerate() {
+        for (gi, g) in st.iter_mut().enumerate() {
+            for (i, e) in g.iter_mut().enumerate() {
+                if e.1 == 0 {
+                    e.0 = SYN + (bidx << 44) + ((si + 1) << 28) + (gi << 14) + i;
+                }
+            }
+        }
+    }
+    for (i, e) in l.thread_local.iter_mut().enumerate() {
+        if e.1 == 0 {
+            e.0 = SYN + (bidx << 44) + i;
+        }
+    }
+    l
 }
